@@ -148,18 +148,23 @@ TYPES = {
     'cond_len': t.Annotated[t.List[int], len_range(min=1, max=2)],
     'cond_raise': t.Annotated[int, Condition(_raising_pred, 'pred')],
     'cond_nested': t.List[t.Annotated[int, Positive]],
+    'cond_set': t.Annotated[t.Set[int], len_range(min=2)],        # the condition must see the CONVERTED value (duplicates gone)
+    'opt_vol': Optional[ValueOrList[int]],                        # a union member whose own converter is a union
     'p1': P1, 'p2': P2, 'ph': PH, 'pal': PAl, 'pt': PT, 'pn': PN, 'pi': PI,
     'range': Range[int],
     'list_p1': t.List[P1], 'dict_p2': t.Dict[str, P2],
     'tag_int': t.Annotated[t.Union[VX, VY], Tagged('t')],
     'tag_ext': t.Annotated[t.Union[VX, VY], Tagged('t', external=True)],
     'tag_adj': t.Annotated[t.Union[VX, VY], Tagged('t', external=('t', 'c'))],
+    'union_tag_dict': None,      # filled below: Union[<internally tagged union>, Dict[str, int]]
     'picky': PickyDict,
     'decimal': __import__('decimal').Decimal,
     'fraction': __import__('fractions').Fraction,
     'date': datetime.date,
     'pattern': t.Pattern[str],
 }
+
+TYPES['union_tag_dict'] = t.Union[TYPES['tag_int'], t.Dict[str, int]]
 
 # converter instances that no plain type expression produces (python constructors / raising constructors)
 CONV_ONLY = {
@@ -184,7 +189,7 @@ VOCAB = {
     'struct': ('a', 'b', 'zz'), 'p1': ('a', 'b', 'zz'), 'p2': ('a', 'b', 'zz'), 'ph': ('a', 'b', 'zz'),
     'pal': ('a_b', 'aB', 'ab'), 'range': ('start', 'end', 'n'), 'pn': ('p', 'q', 'zz'), 'pi': ('x', 'n', 'scale'),
     'tag_int': ('t', 'a', 'zz'), 'tag_ext': ('x', 'y', 'zz'), 'tag_adj': ('t', 'c', 'zz'),
-    'dict_si': ('a', 'b', ''), 'counter': ('a', 'b', ''), 'picky': ('a', 'b', ''),
+    'dict_si': ('a', 'b', ''), 'counter': ('a', 'b', ''), 'picky': ('a', 'b', ''), 'union_tag_dict': ('t', 'a', 'zz'),
 }
 
 # which shape group can reach acceptance (default A) / rejection (default A); None = not in the generic domain
@@ -192,13 +197,13 @@ ACC = {'tuple_fix': 'B', 'tuple_lit': 'B', 'range': None, 'tag_adj': None, 'tag_
        'pt': 'A'}
 REJ = {'any': None}
 MAPPISH = {'any', 'dict_si', 'dict_if', 'counter', 'ddict', 'struct', 'union', 'p1', 'p2', 'ph', 'pal', 'range', 'dict_p2',
-           'tag_int', 'tag_ext', 'tag_adj', 'vol', 'picky', 'pn', 'pi'}
+           'tag_int', 'tag_ext', 'tag_adj', 'vol', 'picky', 'pn', 'pi', 'union_tag_dict', 'opt_vol'}
 SEQISH = {'any', 'list_int', 'seq_any', 'set_int', 'tuple_var', 'tuple_fix', 'tuple_lit', 'union', 'opt_list', 'vol',
           'cond_len', 'cond_nested', 'nested', 'nested_ragged', 'p2', 'ph', 'range', 'list_p1', 'union_ctor', 'lit', 'str',
-          'pt', 'pi'}
+          'pt', 'pi', 'cond_set', 'opt_vol'}
 TEXT = {'date', 'pattern', 'decimal', 'fraction'}      # text parsed by stdlib C/regex code: concretised vocabulary (td_text)
 # converters whose target constructor realises a symbolic int (complex(), int subclass __new__, float()): small ints
-SMALLINT = {'complex', 'cond_rng', 'range', 'myint', 'delegate', 'strsub'}
+SMALLINT = {'complex', 'cond_rng', 'range', 'myint', 'delegate', 'strsub', 'cond_set'}
 NO_F = {'complex'}              # complex(symbolic float) realises without end
 
 _GEN = '''
@@ -508,6 +513,11 @@ TD = {
     'pi_seq': ('pi', "n: int, ka: int, ia: int, sa: str, kb: int, ib: int, sb: str, kc: int, ic: int, sc: str, tup: bool",
                "0 <= n <= 3 and 0 <= ka <= 5 and 0 <= kb <= 2 and 0 <= kc <= 2",
                "b_seq(n, ka, ia, sa, kb, ib, sb, kc, ic, sc, tup)", (0, -1)),
+    'cond_set_seq': ('cond_set', "n: int, ka: int, ia: int, sa: str, kb: int, ib: int, sb: str, kc: int, ic: int, sc: str, tup: bool",
+                     "0 <= n <= 3 and ka == 2 and kb == 1 and kc == 1 and -1 <= ia <= 1 and -1 <= ib <= 1 and -1 <= ic <= 1",
+                     "b_seq(n, ka, ia, sa, kb, ib, sb, kc, ic, sc, tup)", (0, -1)),
+    'union_tag_dict': ('union_tag_dict', "tk: int, ha: bool, ka: int, ia: int, sa: str, he: bool",
+                       "0 <= tk <= 8 and 0 <= ka <= 5", "b_tag_int(tk, ha, ka, ia, sa, he)", (0, -1)),
     'ph_seq': ('ph', "n: int, ka: int, ia: int, sa: str, kb: int, ib: int, sb: str, kc: int, ic: int, sc: str, tup: bool",
                "0 <= n <= 3 and 0 <= ka <= 5 and 0 <= kb <= 2 and 0 <= kc <= 2",
                "b_seq(n, ka, ia, sa, kb, ib, sb, kc, ic, sc, tup)", (0, -1)),
